@@ -244,6 +244,23 @@ def suite_mr_files(seed, tier):
         if _k % 8 == 5:
             case["cfg"]["bin"] = rng.choice([1, 2])
             case["cfg"]["rounds"] = rng.choice([1, 2])
+        if _k % 25 == 3:
+            # a cluster of EXACTLY 255 (the largest count a uint08 buffer file holds) or 256 equal rows, on
+            # bits of its own: it travels through every round as a buffer and is never merged with anything
+            nf = case["nf"]
+            own = [1 if j % 3 == 0 else 0 for j in range(nf)]
+            size = 255 if (_k // 25) % 2 == 0 else 256
+            fam = [list(own) for _ in range(size)]
+            f0 = rng.randrange(len(case["files"]))
+            case["files"][f0] = fam + [r_ for r_ in case["files"][f0]
+                                        if sum(a_ & b_ for a_, b_ in zip(r_, own)) == 0 and any(r_)]
+            for fi in range(len(case["files"])):
+                if fi != f0:
+                    case["files"][fi] = [r_ for r_ in case["files"][fi]
+                                         if sum(a_ & b_ for a_, b_ in zip(r_, own)) == 0 and any(r_)] or [[1 - x for x in own]]
+            # (threshold: a single foreign row would still be averaged into 255 equal ones below 0.9922)
+            case["cfg"].update(thr=0.999, init="diameter", mid="diameter", final=None, save_centroids=True,
+                               refine="none", split_after=False)
         with tempfile.TemporaryDirectory(prefix="verif_mr_") as tmp:
             tmp = Path(tmp)
             (tmp / "in").mkdir()
@@ -341,6 +358,14 @@ def suite_sched(seed, tier):
         if many:
             case["cfg"]["bin"] = rng.choice([2, 3, 4])
             case["cfg"]["rounds"] = rng.choice([1, 2])
+        # one configuration in four re-tunes the estimator inside every task (a tolerance criterion kept from
+        # the initial fit to the refinement, a non-default tolerance, the 'full' refinement): whatever a task
+        # leaves behind in its process must not reach the next task
+        retune = (k % 4 == 2)
+        if retune:
+            tc = rng.choice(["tolerance-diameter", "tolerance-radius", "tolerance-legacy"])
+            case["cfg"].update(init=tc, mid=tc, tol=rng.choice([0.0, 0.2, 0.5]), refine="full",
+                               thr=rng.choice([0.3, 0.5]))
         with tempfile.TemporaryDirectory(prefix="verif_sched_") as tmp:
             tmp = Path(tmp)
             (tmp / "in").mkdir()
@@ -388,8 +413,9 @@ def suite_sched(seed, tier):
                                   "case": case})
                     break
             # real pools
-            if k < (1 if tier == "quick" else 10):
-                for procs, method, mt in ([(2, "forkserver", 1), (5, "fork", 3)] if tier == "quick" else
+            if k < (1 if tier == "quick" else 10) or retune:
+                for procs, method, mt in ([(3, "forkserver", 1)] if (retune and k >= (1 if tier == "quick" else 10)) else
+                                          [(2, "forkserver", 1), (5, "fork", 3)] if tier == "quick" else
                                           [(2, "forkserver", 1), (3, "fork", 2), (5, "forkserver", 4), (10, "fork", 1),
                                            (16, "forkserver", 3), (1, "fork", 5)]):
                     od = tmp / f"p{procs}{method}"
